@@ -1,1 +1,123 @@
-/-! # C15 — property theorems (stub: not built yet) -/
+import PymocaVerif.Lemmas.SimplifyAliasElim
+/-!
+# C15 — simplification keeps regular systems square and self-contained
+
+Property theorems about the model `PymocaVerif.Model.Simplify` of `Model.simplify`.
+`Balanced m m'`: `#unknowns - #equations` is the same in `m` and `m'` (unknowns = states and
+algebraic states, as `check_balanced` counts them).  `Closed m`: no equation, initial equation or
+delay argument of `m` mentions a symbol that is in none of `m`'s variable lists — exactly the
+condition under which CasADi can build the residual functions.
+-/
+set_option linter.unusedSectionVars false
+namespace PymocaVerif.Simplify
+open PymocaVerif.AliasRel Lean.Grind
+
+variable {K : Type} [Field K] [DecidableEq K]
+
+/-! ### objects for the non-vacuity examples -/
+
+def c15E : Engine Rat := { norm := id, gzero := fun _ _ _ _ => false }
+def c15I : Interp Rat := ⟨fun x => x, fun x => x, fun _ x => x, fun _ _ _ => 0⟩
+/-- `x - 3 = 0`, `e - (y + 1) = 0`, `y - 2*x = 0`, parameter `q = p + 1`, `p = 2` -/
+def c15M : Model Rat :=
+  { algs := [{ name := "x" }, { name := "e" }, { name := "y" }],
+    params := [{ name := "p", value := some (.const 2) }, { name := "q", value := some (.bin .add (.sym "p") (.const 1)) }],
+    eqs := [.bin .sub (.sym "x") (.const 3), .bin .sub (.sym "e") (.bin .add (.sym "y") (.sym "q")),
+            .bin .sub (.sym "y") (.bin .mul (.const 2) (.sym "x"))] }
+def c15O : Opts := { expandMx := true, eliminable := some ["e"] }
+
+theorem c15E_ok : EngineOk c15I c15E := ⟨fun _ _ => rfl, fun _ _ h => h, fun _ _ _ => rfl⟩
+
+theorem c15M_closed : Closed c15M := by
+  rw [← dangling_nil_iff]; decide
+
+/-! ### balance -/
+
+/-- `balance_step`: every pass other than the alias detection removes equations and unknowns in
+    pairs, for every option set — provided the algebraic states have distinct names (they are keys of
+    a Python dict in the real code). -/
+theorem balance_step {E : Engine K} (o : Opts) (p : Pass) (hp : p ≠ .alias) {m m' : Model K}
+    (hnd : (names m.algs).Nodup) (h : Pass.run E o p m = .ok m') : Balanced m m' := by
+  cases p <;> simp only [Pass.run] at h
+  · simp at h; subst h; exact resolveLoop_balanced E _ _ m
+  · simp at h; subst h; exact pexpr_balanced E m
+  · simp at h; subst h; exact cexpr_balanced E m
+  · simp at h; subst h; exact cassign_balanced m hnd
+  · exact pvalues_balanced h
+  · exact cvalues_balanced h
+  · exact elim_balanced hnd h
+  · simp at h; subst h; exact factor_balanced m
+  · exact absurd rfl hp
+
+example : ∃ m', Pass.run c15E c15O .elim c15M = .ok m' ∧ (names c15M.algs).Nodup ∧
+    nUnknowns m' = 2 ∧ m'.eqs.length = 2 := ⟨_, rfl, by decide, by decide, by decide⟩
+
+/-- `balance_step` for the alias detection, partial: it keeps the balance if the alias relation
+    eliminates exactly one algebraic variable for every equation the detection loop dropped.
+    Missing: that this counting property follows from the signed-union-find invariant of the alias
+    relation for every run in which `_make_alias` only joins unrelated variables. -/
+theorem balance_step_alias_partial {E : Engine K} {allowDer : Bool} {m m' : Model K}
+    (h : detectAliases E allowDer m = .ok m')
+    (hnd : (names m.states ++ names m.ders ++ names m.algs ++ names m.inputs ++ names m.params ++ names m.consts).Nodup)
+    (hcount : ∀ kept ar l left,
+      aliasLoop E ⟨names m.states, names m.ders, names m.algs, names m.inputs, names m.params, names m.consts, allowDer⟩
+        0 m.eqs m.ar = .ok (kept, ar) →
+      elimAliases (K := K) m.ar ar ar.cv
+        (names m.states ++ names m.ders ++ names m.algs ++ names m.inputs ++ names m.params ++ names m.consts) = .ok (l, left) →
+      kept.length + l.length = m.eqs.length ∧ ∀ x ∈ l.map (·.1), x ∈ names m.algs) :
+    Balanced m m' := alias_balanced_of_count h hnd hcount
+
+/-! ### self-contained -/
+
+/-- What the substituting passes need in order to leave nothing dangling: the values they substitute
+    mention only symbols that stay in the model (for the fixpoint passes: the resolved values). -/
+def ClosedPre (E : Engine K) (o : Opts) (p : Pass) (m : Model K) : Prop :=
+  match p with
+  | .pexpr => ∀ q ∈ fixedList E m.params, ∀ n ∈ q.2.syms,
+      n ∈ ({ m with params := m.params.filter Var.simple } : Model K).known
+  | .cexpr => ∀ q ∈ fixedList E m.consts, ∀ n ∈ q.2.syms,
+      n ∈ ({ m with consts := m.consts.filter Var.simple } : Model K).known
+  | .elim => ∀ r, elimLoop (names m.states) (names m.states ++ names m.algs) (o.eliminable.getD []) m.eqs m.algs = .ok r →
+      ∀ q ∈ elimList E r.2.1, ∀ n ∈ q.2.syms, n ∈ ({ m with algs := r.2.2 } : Model K).known
+  | _ => True
+
+/-- `closed_step`: every pass other than the alias detection maps a self-contained model to a
+    self-contained model (so the residual functions can be built), under `ClosedPre`.  In
+    particular `replace_parameter_values` and `replace_constant_values` (constant values) and
+    `eliminate_constant_assignments` need no precondition. -/
+theorem closed_step {I : Interp K} {E : Engine K} (hE : EngineOk I E) (o : Opts) (p : Pass) (hp : p ≠ .alias)
+    {m m' : Model K} (hpre : ClosedPre E o p m) (hc : Closed m) (h : Pass.run E o p m = .ok m') : Closed m' := by
+  cases p <;> simp only [Pass.run] at h
+  · simp at h; subst h; exact resolveLoop_closed E _ _ m hc
+  · simp at h; subst h; exact pexpr_closed hE hc hpre
+  · simp at h; subst h; exact cexpr_closed hE hc hpre
+  · simp at h; subst h; exact cassign_closed m hc
+  · exact pvalues_closed hE h hc
+  · exact cvalues_closed hE h hc
+  · exact elim_closed hE h hc hpre
+  · simp at h; subst h; exact factor_closed m hc
+  · exact absurd rfl hp
+
+example : EngineOk c15I c15E ∧ Closed c15M ∧ ClosedPre c15E c15O .pvalues c15M := ⟨c15E_ok, c15M_closed, trivial⟩
+
+/-- `closed_step` for the alias detection, partial: the result is self-contained if no canonical
+    variable of the alias relation is itself eliminated.  Missing: that this follows from the class
+    structure of the alias relation. -/
+theorem closed_step_alias_partial {I : Interp K} {E : Engine K} (hE : EngineOk I E) {allowDer : Bool} {m m' : Model K}
+    (h : detectAliases E allowDer m = .ok m') (hc : Closed m)
+    (hnd : (names m.states ++ names m.ders ++ names m.algs ++ names m.inputs ++ names m.params ++ names m.consts).Nodup)
+    (hkept : ∀ kept ar l left,
+      aliasLoop E ⟨names m.states, names m.ders, names m.algs, names m.inputs, names m.params, names m.consts, allowDer⟩
+        0 m.eqs m.ar = .ok (kept, ar) →
+      elimAliases (K := K) m.ar ar ar.cv
+        (names m.states ++ names m.ders ++ names m.algs ++ names m.inputs ++ names m.params ++ names m.consts) = .ok (l, left) →
+      ∀ c ∈ ar.cv, c ∉ l.map (·.1)) :
+    Closed m' := alias_closed_of_kept hE h hc hnd hkept
+
+/-- `closed_residual`, executable form: the list of dangling symbols the driver reports for a model
+    is empty exactly when the model is self-contained. -/
+theorem closed_residual_iff (m : Model K) : m.dangling = [] ↔ Closed m := dangling_nil_iff m
+
+example : c15M.dangling = [] := by decide
+
+end PymocaVerif.Simplify
